@@ -49,6 +49,7 @@ fn main() {
             let thorough = tier == "thorough";
             let oracle_every = match stream {
                 "twide" => 53,
+                "tlong" => 4099,
                 "trand" if thorough => 7,
                 _ => 1,
             };
@@ -98,6 +99,7 @@ fn main() {
                     ssmall(&mut g, 3, if thorough { 3 } else { 2 }, shard, nshards);
                 }
                 "srand" => srand(&mut g, &mut r, if thorough { 3000 } else { 150 }, if thorough { 120 } else { 30 }),
+                "tlong" => tlong(&mut g, shard),
                 "twide" => twide(&mut g, &mut r, if thorough { 12 } else { 2 }, if thorough { 900 } else { 420 }),
                 "tmid" => tmid(&mut g, &mut r, if thorough { 40000 } else { 2500 }),
                 "dsmall" => {
